@@ -1192,6 +1192,12 @@ func fsm3(c *Ctx) {
 						cut[e] = true
 					}
 				}
+				if acc != nil {
+					// so are they when nothing was recorded
+					for _, e := range lenOnlyZeroEdges(fn, acc) {
+						cut[e] = true
+					}
+				}
 				if ex == nil || r.ReachableUnder(ir.Reach(fn.Blocks[0], nil, cut), cut) {
 					okRet, why = false, fmt.Sprintf("return false at %s is not the exhaustion of the recorded matches", c.P.Pos(r.Pos()))
 				}
@@ -2045,6 +2051,24 @@ func fsm6(c *Ctx) {
 	for _, r := range ir.ReturnPoints(fn) {
 		if r.Results[0] == ssa.Value(set) && errIsNonNilH(set, r.Block(), r.Holds) {
 			okErr = true
+		}
+		// handed up through the result variables of inlined helpers: on the ways out that follow the
+		// err != nil edge the returned value can only be the Set error
+		if _, isPhi := r.Results[0].(*ssa.Phi); isPhi {
+			for _, u := range *set.Referrers() {
+				if bo, ok := u.(*ssa.BinOp); ok && ir.IsNilConst(bo.Y) && (bo.Op == token.NEQ || bo.Op == token.EQL) {
+					for _, ed := range ir.EdgesWhere(fn, bo, bo.Op == token.NEQ) {
+						if ir.ReachVia(ed.From, ed.To, nil, nil)[r.At] {
+							vs := ir.PhiValuesAt(r.Results[0], r.At)
+							for _, v := range vs {
+								if v == ssa.Value(set) {
+									okErr = true
+								}
+							}
+						}
+					}
+				}
+			}
 		}
 	}
 	for _, e := range []bool{true} {
